@@ -79,12 +79,14 @@ var schemas = map[string][]field{
 	"clientState":       {{"params", "params", kPtrNN("clientParams")}, {"setParams", "setParams", kBool}, {"lastElecID", "lastElecID", kPtr("Uint128")}},
 	"SessionParameters": {{"Redundancy", "Redundancy", kEnum}, {"Persistence", "Persistence", kEnum}, {"AckType", "AckType", kEnum}},
 	"FlushRequest":      {{"NetworkInstance", "NetworkInstance", kPtr("Unit")}, {"Override", "Override", kPtr("Unit")}, {"Id", "Id", kPtr("Uint128")}},
+	"OpResult":          {{"ID", "ID", kNat}},
+	"AFTOperation":      {{"Id", "Id", kNat}, {"ElectionId", "ElectionId", kPtr("Uint128")}, {"Op", "Op", kEnum}},
 	"ModifyRequest":     {{"Params", "Params", kPtr("SessionParameters")}, {"ElectionId", "ElectionId", kPtr("Uint128")}, {"Operation", "Operation", kPtr("Unit")}},
 }
 
 var leanStruct = map[string]string{
 	"Uint128": "U128", "electionDetails": "ElectionDetails", "clientParams": "ClientParams", "clientState": "ClientState",
-	"SessionParameters": "SessionParameters", "FlushRequest": "FlushRequest", "ModifyRequest": "ModifyRequest", "Unit": "Unit",
+	"SessionParameters": "SessionParameters", "FlushRequest": "FlushRequest", "ModifyRequest": "ModifyRequest", "Unit": "Unit", "OpResult": "OpResult", "AFTOperation": "AFTOperation",
 }
 
 func leanType(k kind) string {
@@ -108,6 +110,13 @@ func leanType(k kind) string {
 		return "Option " + leanStruct[k.s]
 	case "statusval":
 		return "Status"
+	case "aftresult":
+		return "(Nat × AftSt)"
+	case "list":
+		if k.s == "AFTResult" {
+			return "List (Nat × AftSt)"
+		}
+		return "List " + leanStruct[k.s]
 	case "struct":
 		return leanStruct[k.s]
 	case "status":
@@ -224,6 +233,9 @@ func init() {
 	for _, c := range strings.Fields("UNSET OK FAILED RIB_PROGRAMMED FIB_PROGRAMMED FIB_FAILED") {
 		knownCtors["AftSt."+c] = true
 	}
+	for _, c := range strings.Fields("AFTOperation_INVALID AFTOperation_ADD AFTOperation_REPLACE AFTOperation_DELETE") {
+		knownCtors[c] = true
+	}
 	for _, c := range strings.Fields("SessionParameters_ALL_PRIMARY SessionParameters_SINGLE_PRIMARY SessionParameters_DELETE SessionParameters_PRESERVE SessionParameters_RIB_ACK SessionParameters_RIB_AND_FIB_ACK") {
 		knownCtors[c] = true
 	}
@@ -268,7 +280,12 @@ func render(e ast.Expr) string {
 	case *ast.BasicLit:
 		return v.Value
 	case *ast.CompositeLit:
+		if v.Type == nil {
+			return "{}"
+		}
 		return render(v.Type) + "{}"
+	case *ast.ArrayType:
+		return "[]" + render(v.Elt)
 	}
 	return fmt.Sprintf("<%T>", e)
 }
@@ -343,7 +360,7 @@ func trExpr(e ast.Expr, en env) val {
 			return x
 		}
 		if id, ok := v.X.(*ast.Ident); ok && id.Name == "spb" {
-			for _, p := range []string{"SessionParameters_"} {
+			for _, p := range []string{"SessionParameters_", "AFTOperation_"} {
 				if strings.HasPrefix(v.Sel.Name, p) {
 					return val{lean: knownCtor(v.Pos(), v.Sel.Name), kd: kEnum}
 				}
@@ -357,10 +374,31 @@ func trExpr(e ast.Expr, en env) val {
 		}
 		if v.Op == token.AND {
 			if cl, ok := v.X.(*ast.CompositeLit); ok {
+				if render(cl.Type) == "spb.AFTResult" {
+					return trAFTResult(cl, en)
+				}
 				return trComposite(cl, en)
 			}
 		}
 		fail(v.Pos(), "unary %s", v.Op)
+	case *ast.CompositeLit:
+		if at, ok := v.Type.(*ast.ArrayType); ok && render(at.Elt) == "*spb.AFTResult" {
+			var els []string
+			for _, el := range v.Elts {
+				cl, ok := el.(*ast.CompositeLit)
+				if !ok {
+					if u, ok2 := el.(*ast.UnaryExpr); ok2 && u.Op == token.AND {
+						cl, ok = u.X.(*ast.CompositeLit)
+					}
+				}
+				if !ok {
+					fail(el.Pos(), "element of an AFTResult list")
+				}
+				els = append(els, trAFTResult(cl, en).lean)
+			}
+			return val{lean: "[" + strings.Join(els, ", ") + "]", kd: kind{k: "list", s: "AFTResult"}}
+		}
+		fail(v.Pos(), "composite literal %s", render(v))
 	case *ast.BinaryExpr:
 		switch v.Op {
 		case token.EQL, token.NEQ, token.LSS, token.LEQ, token.GTR, token.GEQ, token.LAND, token.LOR:
@@ -411,6 +449,108 @@ func trComposite(cl *ast.CompositeLit, en env) val {
 	return val{lean: "(some " + n + ")", kd: kPtr(name), path: p}
 }
 
+// trAFTResult: {Id: e, Status: spb.AFTResult_X, ErrorDetails: ...} as a pair
+func trAFTResult(r *ast.CompositeLit, en env) val {
+	id, st := "", ""
+	for _, el := range r.Elts {
+		f, ok := el.(*ast.KeyValueExpr)
+		if !ok {
+			fail(el.Pos(), "positional AFTResult literal")
+		}
+		switch render(f.Key) {
+		case "Id":
+			x := trExpr(f.Value, en)
+			if x.kd.k != "nat" {
+				fail(f.Pos(), "result id of kind %s", x.kd)
+			}
+			id = x.lean
+		case "Status":
+			s := render(f.Value)
+			if !strings.HasPrefix(s, "spb.AFTResult_") {
+				fail(f.Pos(), "result status %s", s)
+			}
+			st = knownCtor(f.Pos(), "AftSt."+strings.TrimPrefix(s, "spb.AFTResult_"))
+		case "ErrorDetails":
+		default:
+			fail(f.Pos(), "AFTResult field %s", render(f.Key))
+		}
+	}
+	if id == "" || st == "" {
+		fail(r.Pos(), "AFTResult without id or status")
+	}
+	return val{lean: "(" + id + ", " + st + ")", kd: kind{k: "aftresult"}}
+}
+
+// assignedOuter lists the identifiers assigned with = inside the statements
+func assignedOuter(list []ast.Stmt) []string {
+	seen := map[string]bool{}
+	var out []string
+	for _, s := range list {
+		ast.Inspect(s, func(n ast.Node) bool {
+			if a, ok := n.(*ast.AssignStmt); ok && a.Tok == token.ASSIGN {
+				for _, l := range a.Lhs {
+					if id, ok := l.(*ast.Ident); ok && id.Name != "_" && !seen[id.Name] {
+						seen[id.Name] = true
+						out = append(out, id.Name)
+					}
+				}
+			}
+			if _, ok := n.(*ast.ReturnStmt); ok {
+				fail(n.Pos(), "return inside a loop")
+			}
+			if b, ok := n.(*ast.BranchStmt); ok {
+				fail(b.Pos(), "%s inside a loop", b.Tok)
+			}
+			return true
+		})
+	}
+	return out
+}
+
+// trRange: for _, x := range L { body } where the body only updates one accumulator:
+// acc' := L.foldl (fun acc x => body) acc
+func trRange(v *ast.RangeStmt, en env, next cont) string {
+	if v.Tok != token.DEFINE || v.Value == nil {
+		fail(v.Pos(), "range form")
+	}
+	if k, ok := v.Key.(*ast.Ident); !ok || k.Name != "_" {
+		fail(v.Pos(), "range with an index variable")
+	}
+	xv, ok := v.Value.(*ast.Ident)
+	if !ok {
+		fail(v.Pos(), "range value")
+	}
+	l := trExpr(v.X, en)
+	if l.kd.k != "list" || l.kd.s == "AFTResult" {
+		fail(v.Pos(), "range over %s", l.kd)
+	}
+	accs := assignedOuter(v.Body.List)
+	if len(accs) != 1 {
+		fail(v.Pos(), "loop body assigns %d outer variables (exactly one accumulator is supported)", len(accs))
+	}
+	acc, ok := en.vars[accs[0]]
+	if !ok {
+		fail(v.Pos(), "loop accumulator %s is not declared", accs[0])
+	}
+	lets := takeLets()
+	an, xn := fresh("acc"), fresh(xv.Name)
+	inner := en.push()
+	inner.vars[accs[0]] = val{lean: an, kd: acc.kd}
+	inner.declare(xv.Name, val{lean: xn, kd: kPtrNN(l.kd.s), path: fresh("path")})
+	nEff := len(inner.effects)
+	body := trStmts(v.Body.List, inner, func(e env) string {
+		if len(e.effects) != nEff {
+			fail(v.Pos(), "effect inside a loop")
+		}
+		ls := takeLets()
+		return wrapLets(ls, e.vars[accs[0]].lean)
+	})
+	rn := fresh(accs[0])
+	e1 := en.clone()
+	e1.vars[accs[0]] = val{lean: rn, kd: acc.kd}
+	return wrapLets(append(lets, fmt.Sprintf("let %s := (%s).foldl (fun %s %s => %s) %s", rn, l.lean, an, xn, body, acc.lean)), next(e1))
+}
+
 func zeroOf(k kind) string {
 	switch k.k {
 	case "bool":
@@ -426,6 +566,13 @@ func zeroOf(k kind) string {
 // trCall translates a call expression to the values it returns.
 func trCall(c *ast.CallExpr, en env) []val {
 	fn := render(c.Fun)
+	if fn == "append" && len(c.Args) == 2 {
+		a, b := trExpr(c.Args[0], en), trExpr(c.Args[1], en)
+		if a.kd.k != "list" || !((a.kd.s == "AFTResult" && b.kd.k == "aftresult") || (b.kd.k == "ptr" && b.kd.s == a.kd.s)) {
+			fail(c.Pos(), "append of %s to %s", b.kd, a.kd)
+		}
+		return []val{{lean: "(" + a.lean + " ++ [" + b.lean + "])", kd: a.kd}}
+	}
 	// uint128
 	if fn == "uint128.New" && len(c.Args) == 2 {
 		lo, hi := trExpr(c.Args[0], en), trExpr(c.Args[1], en)
@@ -448,6 +595,32 @@ func trCall(c *ast.CallExpr, en env) []val {
 			if x.kd.k == "ptr" || x.kd.k == "struct" {
 				return []val{selectField(x, strings.TrimPrefix(sel.Sel.Name, "Get"), en, c.Pos())}
 			}
+		}
+	}
+	// oracle
+	if cur != nil {
+		if o, ok := cur.oracles[fn]; ok {
+			if o.effect != "" {
+				var args []string
+				for i, a := range c.Args {
+					if o.args != nil && !containsInt(o.args, i) {
+						continue
+					}
+					args = append(args, atom(trExpr(a, en).lean))
+				}
+				oracleEffects = append(oracleEffects, "(Eff."+o.effect+" "+strings.Join(args, " ")+")")
+			}
+			var out []val
+			for _, r := range o.results {
+				out = append(out, en.vars[r])
+			}
+			if o.errOf {
+				p, e := out[0], out[1]
+				ev := val{lean: "(errOf " + atom(p.lean) + " " + atom(e.lean) + ")", kd: kind{k: "status"}, path: "errof:" + p.path}
+				errPairs[ev.path] = p
+				out[1] = ev
+			}
+			return out
 		}
 	}
 	// another translated function
@@ -496,29 +669,6 @@ func trCall(c *ast.CallExpr, en env) []val {
 			return out
 		}
 	}
-	// oracle
-	if cur != nil {
-		if o, ok := cur.oracles[fn]; ok {
-			if o.effect != "" {
-				var args []string
-				for _, a := range c.Args {
-					args = append(args, atom(trExpr(a, en).lean))
-				}
-				oracleEffects = append(oracleEffects, "(Eff."+o.effect+" "+strings.Join(args, " ")+")")
-			}
-			var out []val
-			for _, r := range o.results {
-				out = append(out, en.vars[r])
-			}
-			if o.errOf {
-				p, e := out[0], out[1]
-				ev := val{lean: "(errOf " + atom(p.lean) + " " + atom(e.lean) + ")", kd: kind{k: "status"}, path: "errof:" + p.path}
-				errPairs[ev.path] = p
-				out[1] = ev
-			}
-			return out
-		}
-	}
 	fail(c.Pos(), "call of %s is outside the translated subset", fn)
 	return nil
 }
@@ -534,6 +684,15 @@ func absorb(en env) env {
 	e.effects = append(e.effects, oracleEffects...)
 	oracleEffects = nil
 	return e
+}
+
+func containsInt(l []int, x int) bool {
+	for _, y := range l {
+		if y == x {
+			return true
+		}
+	}
+	return false
 }
 
 func projPath(j, n int) string {
@@ -823,6 +982,9 @@ func trStmts(list []ast.Stmt, en env, k cont) string {
 	next := func(e env) string { return trStmts(rest, e, k) }
 	switch v := s.(type) {
 	case *ast.ReturnStmt:
+		if cur != nil && cur.loop {
+			fail(v.Pos(), "return in the receive loop that does not follow a send on errCh")
+		}
 		return trReturn(v, en)
 	case *ast.ExprStmt:
 		if c, ok := v.X.(*ast.CallExpr); ok {
@@ -835,6 +997,31 @@ func trStmts(list []ast.Stmt, en env, k cont) string {
 			return wrapLets(lets, next(e1))
 		}
 		fail(v.Pos(), "expression statement %s", render(v.X))
+	case *ast.SendStmt:
+		if cur == nil || !cur.loop {
+			fail(v.Pos(), "channel send")
+		}
+		switch render(v.Chan) {
+		case "errCh":
+			// the receive loop ends the RPC: errCh <- e; return
+			if len(rest) == 0 {
+				fail(v.Pos(), "send on errCh that is not followed by return")
+			}
+			if r, ok := rest[0].(*ast.ReturnStmt); !ok || len(r.Results) != 0 {
+				fail(v.Pos(), "send on errCh that is not followed by return")
+			}
+			e := trRetVal(v.Value, "err", en)
+			e1 := absorb(en)
+			lets := takeLets()
+			return wrapLets(lets, "(LoopOut.term "+atom(e)+" ["+strings.Join(e1.effects, ", ")+"])")
+		case "resultChan":
+			x := trRetVal(v.Value, "mresp", en)
+			e1 := absorb(en).clone()
+			e1.effects = append(e1.effects, "(Eff.send "+atom(x)+")")
+			lets := takeLets()
+			return wrapLets(lets, next(e1))
+		}
+		fail(v.Pos(), "send on channel %s", render(v.Chan))
 	case *ast.DeferStmt:
 		if isSkippableCall(v.Call) {
 			return next(en)
@@ -860,6 +1047,12 @@ func trStmts(list []ast.Stmt, en env, k cont) string {
 					e1.declare(n.Name, val{lean: "none", kd: kind{k: "status"}, path: p})
 				case "bool":
 					e1.declare(n.Name, val{lean: "false", kd: kBool})
+				case "*spb.ModifyResponse":
+					p := fresh("path")
+					e1.isNil[p] = true
+					e1.declare(n.Name, val{lean: "none", kd: kind{k: "mresp"}, path: p})
+				case "[]*rib.OpResult":
+					e1.declare(n.Name, val{lean: "[]", kd: kind{k: "list", s: "OpResult"}})
 				default:
 					fail(v.Pos(), "var of type %s", t)
 				}
@@ -872,6 +1065,8 @@ func trStmts(list []ast.Stmt, en env, k cont) string {
 		return wrapLets(lets, next(e1))
 	case *ast.BlockStmt:
 		return trBlock(v.List, en, next)
+	case *ast.RangeStmt:
+		return trRange(v, en, next)
 	case *ast.IfStmt:
 		outer := en.push() // scope of the init statement
 		after := func(e env) string { return next(e.pop()) }
@@ -1051,39 +1246,11 @@ func trMResp(e ast.Expr, en env) (string, bool) {
 	kv := cl.Elts[0].(*ast.KeyValueExpr)
 	switch render(kv.Key) {
 	case "Result":
-		l, ok := kv.Value.(*ast.CompositeLit)
-		if !ok || len(l.Elts) != 1 {
-			fail(kv.Pos(), "Result list")
+		x := trExpr(kv.Value, en)
+		if x.kd.k != "list" || x.kd.s != "AFTResult" {
+			fail(kv.Pos(), "Result of kind %s", x.kd)
 		}
-		r, ok := l.Elts[0].(*ast.CompositeLit)
-		if !ok {
-			fail(kv.Pos(), "Result element")
-		}
-		id, st := "", ""
-		for _, el := range r.Elts {
-			f := el.(*ast.KeyValueExpr)
-			switch render(f.Key) {
-			case "Id":
-				x := trExpr(f.Value, en)
-				if x.kd.k != "nat" {
-					fail(f.Pos(), "result id of kind %s", x.kd)
-				}
-				id = x.lean
-			case "Status":
-				s := render(f.Value)
-				if !strings.HasPrefix(s, "spb.AFTResult_") {
-					fail(f.Pos(), "result status %s", s)
-				}
-				st = knownCtor(f.Pos(), "AftSt."+strings.TrimPrefix(s, "spb.AFTResult_"))
-			case "ErrorDetails":
-			default:
-				fail(f.Pos(), "AFTResult field %s", render(f.Key))
-			}
-		}
-		if id == "" || st == "" {
-			fail(kv.Pos(), "AFTResult without id or status")
-		}
-		return "(some (MResp.result " + atom(id) + " " + st + "))", true
+		return "(some (MResp.results " + atom(x.lean) + "))", true
 	case "SessionParamsResult":
 		if !strings.Contains(nodeText(kv.Value), "SessionParametersResult_OK") {
 			fail(kv.Pos(), "SessionParamsResult other than OK")
@@ -1203,6 +1370,37 @@ func translate(sp *fnSpec, files map[string]*ast.File, srcs map[string][]byte) (
 	for _, p := range sp.params {
 		want = append(want, p.goName+" "+p.goType)
 	}
+	stmts := fd.Body.List
+	if sp.loop {
+		// one iteration of the receive loop of the first goroutine the function starts, from the
+		// first declaration after the message has been read
+		want = goParams
+		stmts = nil
+		for _, st := range fd.Body.List {
+			g, ok := st.(*ast.GoStmt)
+			if !ok {
+				continue
+			}
+			fl, ok := g.Call.Fun.(*ast.FuncLit)
+			if !ok {
+				continue
+			}
+			for _, st2 := range fl.Body.List {
+				if fs, ok := st2.(*ast.ForStmt); ok && fs.Cond == nil && fs.Init == nil && fs.Post == nil {
+					for i, st3 := range fs.Body.List {
+						if _, ok := st3.(*ast.DeclStmt); ok {
+							stmts = fs.Body.List[i:]
+							break
+						}
+					}
+				}
+			}
+			break
+		}
+		if stmts == nil {
+			return "", fmt.Errorf("%s: receive loop not found", sp.goName)
+		}
+	}
 	if strings.Join(goParams, ", ") != strings.Join(want, ", ") {
 		return "", fmt.Errorf("%s: signature is (%s), the translator expects (%s)", sp.goName, strings.Join(goParams, ", "), strings.Join(want, ", "))
 	}
@@ -1212,7 +1410,7 @@ func translate(sp *fnSpec, files map[string]*ast.File, srcs map[string][]byte) (
 			goRets = append(goRets, render(p.Type))
 		}
 	}
-	if strings.Join(goRets, ", ") != sp.goRets {
+	if !sp.loop && strings.Join(goRets, ", ") != sp.goRets {
 		return "", fmt.Errorf("%s: results are (%s), the translator expects (%s)", sp.goName, strings.Join(goRets, ", "), sp.goRets)
 	}
 	addParam := func(p param) {
@@ -1249,9 +1447,15 @@ func translate(sp *fnSpec, files map[string]*ast.File, srcs map[string][]byte) (
 	if sp.effects {
 		retTypes = append(retTypes, "List Eff")
 	}
-	body := trStmts(fd.Body.List, en, func(env) string {
+	if sp.loop {
+		retTypes = []string{"LoopOut"}
+	}
+	body := trStmts(stmts, en, func(e env) string {
+		if sp.loop {
+			return "(LoopOut.cont " + atom(e.vars["gotmsg"].lean) + " [" + strings.Join(e.effects, ", ") + "])"
+		}
 		if len(sp.rets) == 0 {
-			return trReturn(&ast.ReturnStmt{}, en)
+			return trReturn(&ast.ReturnStmt{}, e)
 		}
 		fail(fd.Body.Rbrace, "control reaches the end of a function that returns values")
 		return ""
